@@ -53,6 +53,17 @@ def metadata_coverage(prog, rep, fi, loop, bvar):
     wrong = {k: p for k, p in forwarded.items() if KEY_TO_PARAM.get(k) != p}
     rep.check(not wrong, "COVERAGE", fi.short, "fields land on the right parameter", "id->bucket_id, type->type_id, ...", f"field(s) forwarded to the wrong parameter: {wrong}", fi.loc(c))
     rep.unit("call_sites", f"{fi.short}: {norm(c)[:160]}")
+    # the dict the loop reads comes from pw_db.buckets(): its listing must really carry every field json() reads
+    from ..sqlmodel import peewee_chains
+
+    js = prog.func("BucketModel.json")
+    jr = [n for n in walk_own(js.node) if isinstance(n, ast.Return) and isinstance(n.value, ast.Dict)]
+    json_fields = {n.attr for n in ast.walk(jr[0].value) if isinstance(n, ast.Attribute) and isinstance(n.value, ast.Name) and n.value.id == "self"} if jr else set()
+    for ch in peewee_chains(prog):
+        if ch.fi.short == "PeeweeStorage.buckets" and ch.model == "BucketModel" and ch.op == "select":
+            cols = {norm(a).split(".")[-1] for a in ch.op_call.args}
+            missing = sorted(json_fields - cols) if cols else []
+            rep.check(not missing, "COVERAGE", "PeeweeStorage.buckets", "legacy listing carries every field", f"select({sorted(cols) or 'all columns'})", f"the legacy store's listing selects only {sorted(cols)}; json() then reports {missing} as empty, and the migration copies that emptiness into the new store", ch.loc())
 
 
 def id_typestate(prog, rep, fi, loop):
